@@ -109,10 +109,10 @@ def other_readers(ctx):
         return Tree(n.cat, kids, s, y, n.head_is_left)
     try:
         for i in range(ctx.budget(400, 4000)):
-            fmt = ('xml', 'jigg', 'ptb')[i % 3]
-            lang = 'ja' if (fmt == 'jigg' and i % 2) else 'en'
+            fmt = ('xml', 'jigg', 'ptb', 'nltk')[i % 4]
+            lang = 'ja' if (fmt in ('jigg', 'nltk') and i % 3 == 0) else 'en'
             mod = en if lang == 'en' else ja
-            if i % 4 == 3:
+            if i % 5 == 4:
                 t = T.arbitrary_tree(rng, lang, rng.randint(2, 5), gen_cat.tree_cats(lang),
                                      T.EN_LABELS if lang == 'en' else T.JA_LABELS, dict(awkward=0.0, attrs=0.6))
             else:
@@ -121,7 +121,23 @@ def other_readers(ctx):
             desc = {'format': fmt, 'lang': lang, 'tree': T.enc_tree(t)[:2000]}
             dlang.set_global_language_to(lang)
             try:
-                if fmt == 'ptb':
+                if fmt == 'nltk':
+                    # Tree.nltk_tree() / Tree.of_nltk_tree (depccg/tree.py) over a minimal stand-in for nltk.tree.Tree
+                    import sys as _sys
+                    import nltk.tree as _nt
+
+                    class FakeNltkTree(list):
+                        def __init__(self, label, children):
+                            super().__init__(children)
+                            self._label = label
+
+                        def label(self):
+                            return self._label
+                    _nt.Tree = FakeNltkTree
+                    rt = Tree.of_nltk_tree(T.clone(t).nltk_tree())
+                    if [str(l.cat) for l in rt.leaves] != [str(l.cat) for l in t.leaves] or [l.word for l in rt.leaves] != [l.word for l in t.leaves]:
+                        raise ValueError('leaves differ after the nltk round trip')
+                elif fmt == 'ptb':
                     text = ptb_of(t) + '\n'
                 else:
                     root = xml_of([[ScoredTree(T.clone(t), -1.0)]]) if fmt == 'xml' else \
@@ -129,8 +145,9 @@ def other_readers(ctx):
                     text = etree.tostring(root, encoding='utf-8', pretty_print=True).decode('utf-8')
                 with open(path, 'w', encoding='utf-8') as f:
                     f.write(text)
-                reader = {'xml': read_xml, 'jigg': read_jigg_xml, 'ptb': read_ptb}[fmt]
-                rt = list(reader(path))[0].tree
+                if fmt != 'nltk':
+                    reader = {'xml': read_xml, 'jigg': read_jigg_xml, 'ptb': read_ptb}[fmt]
+                    rt = list(reader(path))[0].tree
             except Exception as e:
                 ctx.fail(f'{fmt}: writing / reading raised {type(e).__name__}: {e}', desc, fingerprint=['reader-raise', fmt])
                 continue
